@@ -1,4 +1,5 @@
 import Rangers.Proofs.Ledger
+set_option linter.unusedSimpArgs false
 /-! Invariants of the EVM frame skeleton `exec` (C06). -/
 namespace Rangers.Ledger
 
@@ -8,6 +9,8 @@ def mass (s : St) : Int :=
   (total s.bal : Int) + (s.burned : Int) + (stakeSum s.reg : Int) + (escrowTotal s.escrow : Int) - (s.excess : Int)
 
 theorem mass_revertTo (snap after : St) : mass (revertTo snap after) = mass snap := rfl
+
+theorem revertToJ_true (snap after : St) : revertToJ true snap after = revertTo snap after := rfl
 
 theorem mass_suicide (s : St) (self ben : Addr) : mass (suicide s self ben) = mass s := by
   unfold suicide mass
@@ -118,7 +121,7 @@ theorem mass_opUnStakeAll (code : Code) (s : St) (self : Addr) (s1 : St) (h : op
 
 theorem exec_mass (code : Code) (origin : Addr) :
     ∀ (f : Nat) (self : Addr) (ro : Bool) (sc : Script) (s : St),
-      mass (exec code origin f self ro sc s).1 = mass s := by
+      mass (exec code origin true f self ro sc s).1 = mass s := by
   intro f
   induction f with
   | zero => intro self ro sc s; simp [exec]
@@ -132,12 +135,12 @@ theorem exec_mass (code : Code) (origin : Addr) :
       | revert => simp [exec]
       | invalid => simp [exec]
       | suicide ben =>
-        simp only [exec]
+        simp only [exec, revertToJ_true]
         split
         · rfl
         · exact mass_suicide s self ben
       | call to v =>
-        simp only [exec]
+        simp only [exec, revertToJ_true]
         split
         · rfl
         · rw [ih]
@@ -148,7 +151,7 @@ theorem exec_mass (code : Code) (origin : Addr) :
             · rw [ih]; exact mass_transfer s self to v (by simpa using hg)
             · rw [mass_revertTo]
       | callcode to v =>
-        simp only [exec]
+        simp only [exec, revertToJ_true]
         rw [ih]
         split
         · rfl
@@ -156,13 +159,13 @@ theorem exec_mass (code : Code) (origin : Addr) :
           · rw [ih]
           · rw [mass_revertTo]
       | delegatecall to =>
-        simp only [exec]
+        simp only [exec, revertToJ_true]
         rw [ih]
         split
         · rw [ih]
         · rw [mass_revertTo]
       | staticcall to =>
-        simp only [exec]
+        simp only [exec, revertToJ_true]
         rw [ih]
         split
         · rw [ih]
@@ -173,7 +176,7 @@ theorem exec_mass (code : Code) (origin : Addr) :
           rw [this]; simp
         · rw [mass_revertTo]
       | create v init =>
-        simp only [exec]
+        simp only [exec, revertToJ_true]
         split
         · rfl
         · rw [ih]
@@ -185,7 +188,7 @@ theorem exec_mass (code : Code) (origin : Addr) :
               exact mass_transfer' { s with fresh := s.fresh + 1 } self (freshAddr s.fresh) v (by simpa using hg)
             · rw [mass_revertTo]; rfl
       | authcall to v =>
-        simp only [exec]
+        simp only [exec, revertToJ_true]
         rw [ih]
         split
         · rfl
@@ -193,10 +196,10 @@ theorem exec_mass (code : Code) (origin : Addr) :
           split
           · rw [ih]; exact mass_transfer s origin to v (by simpa using hg)
           · rw [mass_revertTo]
-      | stake v => simp only [exec]; rw [ih]; exact mass_opStake s self v
-      | unstake v => simp only [exec]; rw [ih]; exact mass_opUnStake code origin s self v
+      | stake v => simp only [exec, revertToJ_true]; rw [ih]; exact mass_opStake s self v
+      | unstake v => simp only [exec, revertToJ_true]; rw [ih]; exact mass_opUnStake code origin s self v
       | unstakeAll =>
-        simp only [exec]
+        simp only [exec, revertToJ_true]
         cases hu : opUnStakeAll code s self with
         | none => rfl
         | some s1 => simp only; rw [ih]; exact mass_opUnStakeAll code s self s1 hu
@@ -244,7 +247,7 @@ theorem burned_opUnStakeAll (code : Code) (s : St) (self : Addr) (s1 : St) (h : 
 /-- the ghost burn counter never decreases over a frame (a reverted child restores the value at its entry) -/
 theorem exec_burned_mono (code : Code) (origin : Addr) :
     ∀ (f : Nat) (self : Addr) (ro : Bool) (sc : Script) (s : St),
-      s.burned ≤ (exec code origin f self ro sc s).1.burned := by
+      s.burned ≤ (exec code origin true f self ro sc s).1.burned := by
   intro f
   induction f with
   | zero => intro self ro sc s; simp [exec]
@@ -258,12 +261,12 @@ theorem exec_burned_mono (code : Code) (origin : Addr) :
       | revert => simp [exec]
       | invalid => simp [exec]
       | suicide ben =>
-        simp only [exec]
+        simp only [exec, revertToJ_true]
         split
         · exact Nat.le_refl _
         · unfold suicide; simp only; omega
       | call to v =>
-        simp only [exec]
+        simp only [exec, revertToJ_true]
         split
         · exact Nat.le_refl _
         · refine Nat.le_trans ?_ (ih _ _ _ _)
@@ -273,7 +276,7 @@ theorem exec_burned_mono (code : Code) (origin : Addr) :
             · exact ih _ _ _ { s with bal := vmTransfer s.bal self to v }
             · exact Nat.le_refl _
       | callcode to v =>
-        simp only [exec]
+        simp only [exec, revertToJ_true]
         refine Nat.le_trans ?_ (ih _ _ _ _)
         split
         · exact Nat.le_refl _
@@ -281,19 +284,19 @@ theorem exec_burned_mono (code : Code) (origin : Addr) :
           · exact ih _ _ _ s
           · exact Nat.le_refl _
       | delegatecall to =>
-        simp only [exec]
+        simp only [exec, revertToJ_true]
         refine Nat.le_trans ?_ (ih _ _ _ _)
         split
         · exact ih _ _ _ s
         · exact Nat.le_refl _
       | staticcall to =>
-        simp only [exec]
+        simp only [exec, revertToJ_true]
         refine Nat.le_trans ?_ (ih _ _ _ _)
         split
         · exact ih _ _ _ { s with bal := addBal s.bal to 0 }
         · exact Nat.le_refl _
       | create v init =>
-        simp only [exec]
+        simp only [exec, revertToJ_true]
         split
         · exact Nat.le_refl _
         · refine Nat.le_trans ?_ (ih _ _ _ _)
@@ -304,7 +307,7 @@ theorem exec_burned_mono (code : Code) (origin : Addr) :
                 bal := vmTransfer s.bal self (freshAddr s.fresh) v }
             · exact Nat.le_refl _
       | authcall to v =>
-        simp only [exec]
+        simp only [exec, revertToJ_true]
         refine Nat.le_trans ?_ (ih _ _ _ _)
         split
         · exact Nat.le_refl _
@@ -312,15 +315,15 @@ theorem exec_burned_mono (code : Code) (origin : Addr) :
           · exact ih _ _ _ { s with bal := vmTransfer s.bal origin to v }
           · exact Nat.le_refl _
       | stake v =>
-        simp only [exec]
+        simp only [exec, revertToJ_true]
         refine Nat.le_trans ?_ (ih _ _ _ _)
         rw [burned_opStake]; exact Nat.le_refl _
       | unstake v =>
-        simp only [exec]
+        simp only [exec, revertToJ_true]
         refine Nat.le_trans ?_ (ih _ _ _ _)
         rw [burned_opUnStake]; exact Nat.le_refl _
       | unstakeAll =>
-        simp only [exec]
+        simp only [exec, revertToJ_true]
         cases hu : opUnStakeAll code s self with
         | none => exact Nat.le_refl _
         | some s1 =>
@@ -393,7 +396,7 @@ theorem bal_opUnStakeAll (code : Code) (s : St) (self : Addr) (s1 : St) (h : opU
 
 theorem exec_total_le (code : Code) (origin : Addr) :
     ∀ (f : Nat) (self : Addr) (ro : Bool) (sc : Script) (s : St),
-      total (exec code origin f self ro sc s).1.bal ≤ total s.bal := by
+      total (exec code origin true f self ro sc s).1.bal ≤ total s.bal := by
   intro f
   induction f with
   | zero => intro self ro sc s; simp [exec]
@@ -407,12 +410,12 @@ theorem exec_total_le (code : Code) (origin : Addr) :
       | revert => simp [exec]
       | invalid => simp [exec]
       | suicide ben =>
-        simp only [exec]
+        simp only [exec, revertToJ_true]
         split
         · exact Nat.le_refl _
         · exact total_suicide_le s self ben
       | call to v =>
-        simp only [exec]
+        simp only [exec, revertToJ_true]
         split
         · exact Nat.le_refl _
         · refine Nat.le_trans (ih _ _ _ _) ?_
@@ -425,7 +428,7 @@ theorem exec_total_le (code : Code) (origin : Addr) :
               rw [total_transfer_eq s self to v (by simpa using hg)]; exact Nat.le_refl _
             · exact Nat.le_refl _
       | callcode to v =>
-        simp only [exec]
+        simp only [exec, revertToJ_true]
         refine Nat.le_trans (ih _ _ _ _) ?_
         split
         · exact Nat.le_refl _
@@ -433,13 +436,13 @@ theorem exec_total_le (code : Code) (origin : Addr) :
           · exact ih _ _ _ s
           · exact Nat.le_refl _
       | delegatecall to =>
-        simp only [exec]
+        simp only [exec, revertToJ_true]
         refine Nat.le_trans (ih _ _ _ _) ?_
         split
         · exact ih _ _ _ s
         · exact Nat.le_refl _
       | staticcall to =>
-        simp only [exec]
+        simp only [exec, revertToJ_true]
         refine Nat.le_trans (ih _ _ _ _) ?_
         split
         · refine Nat.le_trans (ih _ _ _ _) ?_
@@ -450,7 +453,7 @@ theorem exec_total_le (code : Code) (origin : Addr) :
           rw [this]; exact Nat.le_refl _
         · exact Nat.le_refl _
       | create v init =>
-        simp only [exec]
+        simp only [exec, revertToJ_true]
         split
         · exact Nat.le_refl _
         · refine Nat.le_trans (ih _ _ _ _) ?_
@@ -465,7 +468,7 @@ theorem exec_total_le (code : Code) (origin : Addr) :
               rw [total_transfer_eq s self (freshAddr s.fresh) v hc]; exact Nat.le_refl _
             · exact Nat.le_refl _
       | authcall to v =>
-        simp only [exec]
+        simp only [exec, revertToJ_true]
         refine Nat.le_trans (ih _ _ _ _) ?_
         split
         · exact Nat.le_refl _
@@ -476,14 +479,14 @@ theorem exec_total_le (code : Code) (origin : Addr) :
             rw [total_transfer_eq s origin to v (by simpa using hg)]; exact Nat.le_refl _
           · exact Nat.le_refl _
       | stake v =>
-        simp only [exec]
+        simp only [exec, revertToJ_true]
         exact Nat.le_trans (ih _ _ _ _) (total_opStake_le s self v)
       | unstake v =>
-        simp only [exec]
+        simp only [exec, revertToJ_true]
         refine Nat.le_trans (ih _ _ _ _) ?_
         rw [bal_opUnStake]; exact Nat.le_refl _
       | unstakeAll =>
-        simp only [exec]
+        simp only [exec, revertToJ_true]
         cases hu : opUnStakeAll code s self with
         | none => exact Nat.le_refl _
         | some s1 =>
